@@ -207,9 +207,13 @@ class Interp:
             return TOP
         if k == "Closure":
             return TOP
-        if k == "Tup" or k == "Array":
-            out = TOP
-            return out
+        if k == "Tup":
+            # a tuple that carries one node vector / Value stands for it (`match (value, rest.is_empty()) { (Value::Node(n), true) ..`)
+            vals = [self.ev(x, env) for x in e.get("es", [])]
+            nodeish = [v for x, v in zip(e.get("es", []), vals) if is_nodeish(x.get("ty")) and v is not None]
+            return nodeish[0] if len(nodeish) == 1 else TOP
+        if k == "Array":
+            return TOP
         if k == "Binary":
             self.ev(e["a"], env)
             self.ev(e["b"], env)
@@ -391,7 +395,7 @@ class Interp:
             return out
         if tracked:
             cur = env.get(root, TOP)
-            if m == "sort_by_cached_key" and self._closure_is_order_key(e["args"][0]):
+            if m in ("sort_by_cached_key", "sort_by_key") and self._closure_is_order_key(e["args"][0]):     # both are stable sorts
                 env[root] = (True, cur[1], frozenset(), cur[3])
                 return TOP
             if m == "retain" and self._closure_is_set_insert_order(e["args"][0]):
@@ -436,6 +440,17 @@ class Interp:
             return BOT if is_nodeish(e.get("ty")) else TOP
         if m in NEUTRAL_METHODS or m in ("first", "last", "get", "next", "nth", "unwrap_or", "as_deref", "peekable"):
             return rv
+        # iterator adapters over a node vector: dropping elements keeps order and uniqueness, `filter(|v| set.insert(v.order()))`
+        # establishes uniqueness, collect() keeps what the iterator had; anything that makes new elements or reorders is unknown
+        if rv is not None and rv != TOP or (rv == TOP and self._root(recv) is not None):
+            if m in ("filter", "skip", "take", "skip_while", "take_while", "step_by", "by_ref", "copied", "fuse"):
+                if m == "filter" and e["args"] and self._closure_is_set_insert_order(e["args"][0]):
+                    return (rv[0], True, rv[2], frozenset())
+                return rv
+            if m in ("collect", "to_vec", "into_vec") and is_nodeish(e.get("ty")):
+                return rv
+            if m == "rev":
+                return (False, rv[1], frozenset(), rv[3])
         if not is_nodeish(e.get("ty")):
             return TOP
         if m in ("flat_map", "map", "filter", "filter_map", "rev", "chain", "zip", "collect") and is_nodeish(e.get("ty")):
